@@ -31,6 +31,11 @@ fn worlds(thorough: bool) -> Vec<Built> {
     // adaptive-fee pool with the strongest control factor: four tick groups (256 ticks) away from the reference the total rate
     // passes 65 535 (more than 16 bits) and at five it sits on the 10 % hard limit — "fee rates up to ... 10% adaptive hard limit"
     v.push(af_world("c06-af-hot"));
+    // both mints withhold a transfer fee (Token-2022) AND the protocol takes a share: the split is of what the VAULT receives — the
+    // protocol's share is the configured fraction of the swap fee, not of anything grossed up by the mint's transfer fee
+    let mut t22 = stdworlds::t22_spec("c06-t22", 100, 5_000, 250, u64::MAX);
+    t22.protocol_fee_rate = 2_500;
+    v.push(stdworlds::build_with_roots(&t22, &roots[1..3]));
     if thorough {
         v.push(stdworlds::build_with_roots(&stdworlds::std_spec("c06-std-60000-2500", [Enc::Fixed, Enc::Fixed, Enc::Dynamic], 60000, 2500), &roots[1..]));
         v.push(stdworlds::build_with_roots(&stdworlds::std_spec("c06-std-0-0", [Enc::Dynamic, Enc::Dynamic, Enc::Fixed], 0, 0), &roots[1..3]));
@@ -94,6 +99,21 @@ fn alphabet(b: &Built) -> Vec<Op> {
         a.push(Op::SetFeeRate(3_000));
         a.push(Op::SetProtocolFeeRate(0));
         a.push(Op::SetProtocolFeeRate(2_500));
+        return a;
+    }
+    if b.name.contains("-t22") {
+        let mut a = vec![];
+        for a_to_b in [true, false] {
+            a.push(Op::Swap { a_to_b, exact_in: true, amount: 1_000_000, lim: Lim::None, v2: true });
+            a.push(Op::Swap { a_to_b, exact_in: false, amount: 100_000, lim: Lim::None, v2: true });
+            a.push(Op::Swap { a_to_b, exact_in: true, amount: 20_000_000, lim: Lim::None, v2: true }); // crosses ticks
+            a.push(Op::Swap { a_to_b, exact_in: true, amount: 3, lim: Lim::None, v2: true });
+            a.push(Op::Swap { a_to_b, exact_in: false, amount: 30_000_000, lim: Lim::Mid, v2: true }); // partial exact-out
+        }
+        a.push(Op::CollectProtocol { v2: true });
+        a.push(Op::SetProtocolFeeRate(0));
+        a.push(Op::SetProtocolFeeRate(300));
+        a.push(Op::Dec { pos: 0, part: Part::All, v2: true });
         return a;
     }
     if b.name.contains("dust") {
